@@ -138,9 +138,62 @@ pub fn run(ctx: &Ctx) -> Report {
             }
         }
     });
+    // concurrent burst: 16 threads released from a barrier render pre-built symbols of 12 different sizes in a tight
+    // loop (the pool above also renders concurrently, but spends most of its time building): a renderer that shares
+    // anything between threads (a cached border line, a scratch buffer) without holding it consistently shows here
+    let mut st = st;
+    {
+        let symbols: Vec<Box<fast_qr::QRCode>> = (1..=12usize)
+            .filter_map(|v| match adapter::build(&adapter::Config { input: vec![b'a' + v as u8; 3], mode: None, level: Some(v % 4), version: Some(v), mask: None }) {
+                Outcome::Ok(q) => Some(q),
+                _ => None,
+            })
+            .collect();
+        let threads = pool::threads();
+        let per_thread = ctx.tier.pick(1_500usize, 20_000);
+        let barrier = std::sync::Barrier::new(threads);
+        let results: Vec<Stats> = std::thread::scope(|s| {
+            let hs: Vec<_> = (0..threads)
+                .map(|t| {
+                    let (symbols, barrier) = (&symbols, &barrier);
+                    s.spawn(move || {
+                        let mut st = Stats::new();
+                        let mut x = mix(ctx.seed, 0xb0257 + t as u64);
+                        barrier.wait();
+                        for _ in 0..per_thread {
+                            x = mix(x, 1);
+                            let q = &symbols[(x % symbols.len() as u64) as usize];
+                            st.eval();
+                            match adapter::guarded(|| q.to_str()) {
+                                Ok(text) => match svgcheck::check_terminal(&text, q) {
+                                    Ok(n) => {
+                                        st.count("cells_decoded_from_text", n);
+                                        st.count("concurrent_burst_renders_checked", 1);
+                                    }
+                                    Err(v) => {
+                                        st.violation(ID, &format!("concurrent/{}", v.0), format!("{} (size {}, rendered while {} other threads were rendering symbols of other sizes)", v.1, q.size, threads - 1), json!({"fam": "concurrent-burst", "size": q.size}));
+                                        break;
+                                    }
+                                },
+                                Err(p) => {
+                                    st.violation(ID, "concurrent/render-panic", p, json!({"fam": "concurrent-burst", "size": q.size}));
+                                    break;
+                                }
+                            }
+                        }
+                        st
+                    })
+                })
+                .collect();
+            hs.into_iter().map(|h| h.join().expect("burst thread")).collect()
+        });
+        for r in results {
+            st.merge(r);
+        }
+    }
     let mut rep = Report::new(
         st,
-        "jobs = all 40 sizes x 4 levels x payloads (capacity-filling + random; thorough: x 8 mask slots), mask rotating over forced 0..7 and automatic; to_str() is split into lines, every character mapped to a (top, bottom) pair (space = dark/dark, U+2588 = light/light, U+2580 = light/dark, U+2584 = dark/light) and the resulting grid compared cell by cell with a one-module light border around the module values; crafted byte payloads make the data area of the final symbol uniformly dark / light / striped (24 targets x versions, with the matching forced mask); jobs are executed in shuffled order and every second job first renders (and checks) a symbol of an unrelated size on the same thread, so each rendering happens after bigger and after smaller ones; distinct key = (options, len, payload hash); every case non-trivial",
+        "jobs = all 40 sizes x 4 levels x payloads (capacity-filling + random; thorough: x 8 mask slots), mask rotating over forced 0..7 and automatic; to_str() is split into lines, every character mapped to a (top, bottom) pair (space = dark/dark, U+2588 = light/light, U+2580 = light/dark, U+2584 = dark/light) and the resulting grid compared cell by cell with a one-module light border around the module values; crafted byte payloads make the data area of the final symbol uniformly dark / light / striped (24 targets x versions, with the matching forced mask); a concurrent burst (16 threads released from a barrier, 1,500 renders each, quick; 20,000 thorough, of pre-built symbols of 12 sizes, every text decoded); jobs are executed in shuffled order and every second job first renders (and checks) a symbol of an unrelated size on the same thread, so each rendering happens after bigger and after smaller ones; distinct key = (options, len, payload hash); every case non-trivial",
     );
     rep.expected_sets = vec![("sizes", 40)];
     rep.required_sets = vec![("sizes", 40)];
